@@ -9,6 +9,7 @@
                        CompactBlockMetas                   (output range of LeveledCompactor.Compact)
      storage/merge.go  NewMergeChunkSeriesSet + compacting / concatenating merger: model/Merge.v (C19)
      tsdb/tombstones   Intervals.Add: model/Intervals.v (C20)
+     tsdb/index        Writer.AddSeries: only its chunk-order check
 
    A block is a list of series (label rank, chunks, tombstone intervals) in index order; chunks
    are (MinTime, MaxTime, samples) as in model/Merge.v. Persisted blocks only: ChunkOrIterable
@@ -193,6 +194,13 @@ Definition add_series_stats (st : stats) (chks : list chunk) : stats :=
             (mkSt (st_series st + 1) (st_chunks st + Z.of_nat (length chks))
                   (st_samples st) (st_hist st) (st_float st)).
 
+(* index.Writer.AddSeries: "chunk minT %d is not higher than previous chunk maxT %d" *)
+Fixpoint chunks_inorder (cs : list chunk) : bool :=
+  match cs with
+  | a :: ((b :: _) as r) => (c_max a <? c_min b) && chunks_inorder r
+  | _ => true
+  end.
+
 (* ------------------------------------------------------------------ PopulateBlock main loop *)
 Fixpoint populate_loop (ch : choices) (compacting : bool) (sets : list (list cseries))
          (groups : list (list series)) (st : stats)
@@ -206,6 +214,8 @@ Fixpoint populate_loop (ch : choices) (compacting : bool) (sets : list (list cse
           | (None, ch1) => (None, ch1)
           | (Some [], ch1) => populate_loop ch1 compacting sets rest st   (* all chunks deleted *)
           | (Some chks, ch1) =>
+              if negb (chunks_inorder chks) then (None, ch1)          (* indexw.AddSeries fails *)
+              else
               match populate_loop ch1 compacting sets rest (add_series_stats st chks) with
               | (Some (out, st'), ch2) => (Some ((ser_l x, chks) :: out, st'), ch2)
               | (None, ch2) => (None, ch2)
